@@ -154,6 +154,14 @@ def replay(case):
             if focus in ("C12", "C10"):
                 fails.append("step %d %s: refused add changed the mapping" % (step, _ev(ev)))
             return fails
+    # what a consumer does before writing: looks trees up that may not be there (KeyError is the answer then)
+    for v in list(m.rpms) + ["NoSuchVariant"]:
+        for a in ("src", "nosrc", "x86-64", arches["bin2"]):
+            for look in (lambda: m[v][a], lambda: m.rpms[v][a], lambda: "x" in m.rpms[v][a], lambda: m.rpms[v].get(a)):
+                try:
+                    look()
+                except (KeyError, TypeError):
+                    pass
     exp = expected_map(case["rpms"], names, arches)
     if m.rpms != exp:
         if focus in ("C12", "C10", "C03"):
